@@ -28,19 +28,24 @@ CONSTANTS MaxEvents      \* events before EngineFinished
 Labels == {"GET /a", "Stateful tests"}
 Phases == 1..3           \* 1 = derived case without metadata, 2 = coverage metadata, 3 = generate (fuzzing) metadata
 Failures == {1, 2}
-Shapes == {"ok", "f1", "f2", "f12", "neterr", "nochecks", "skip", "empty"}
+Shapes == {"ok", "f1", "f2", "f12", "neterr", "nochecks", "skip", "empty", "lost"}
 
 Chk(f) == [fail |-> f]
-CaseOf(resp, checks) == [resp |-> resp, checks |-> checks]
+CaseOf(resp, checks) == [sent |-> TRUE, resp |-> resp, checks |-> checks]
+(* a recorded case WITHOUT an interaction: sending failed with something that is neither a timeout nor a connection error (truncated
+   chunked response, too many redirects, serialization error), or the run stopped there.  It is not an exchange: no reporter shows it,
+   and it must not disturb the exchanges around it *)
+Unsent == [sent |-> FALSE, resp |-> FALSE, checks |-> <<>>]
 CasesOf(sh) == CASE sh = "ok"       -> <<CaseOf(TRUE, <<Chk(0)>>)>>
                  [] sh = "f1"       -> <<CaseOf(TRUE, <<Chk(1)>>)>>
                  [] sh = "f2"       -> <<CaseOf(TRUE, <<Chk(0), Chk(2)>>)>>
                  [] sh = "f12"      -> <<CaseOf(TRUE, <<Chk(1)>>), CaseOf(TRUE, <<Chk(1), Chk(2)>>)>>
                  [] sh = "neterr"   -> <<CaseOf(FALSE, <<>>)>>
                  [] sh = "nochecks" -> <<CaseOf(TRUE, <<>>)>>
+                 [] sh = "lost"     -> <<Unsent, CaseOf(TRUE, <<Chk(0)>>), Unsent, CaseOf(TRUE, <<Chk(0)>>), Unsent>>   \* first, middle, last
                  [] OTHER           -> <<>>
 StatusOf(sh) == CASE sh \in {"f1", "f2", "f12"} -> "FAILURE"
-                  [] sh \in {"neterr", "empty"} -> "ERROR"
+                  [] sh \in {"neterr", "empty", "lost"} -> "ERROR"
                   [] sh = "skip"                -> "SKIP"
                   [] OTHER                      -> "SUCCESS"
 MetaOf(ph) == CASE ph = 1 -> "none" [] ph = 2 -> "coverage" [] OTHER -> "generate"
@@ -75,14 +80,16 @@ ScenarioFinished(l, ph, sh) ==
                   THEN {"failure-scenario-without-group-under-label"} ELSE {})
                  \cup (IF StatusOf(sh) = "FAILURE" /\ new = {} THEN {"all-failures-already-seen"} ELSE {})
                  \cup (IF ph = 1 /\ cs # <<>> THEN {"case-without-metadata"} ELSE {})
-                 \cup (IF \E c \in 1..Len(cs) : ~cs[c].resp THEN {"no-response"} ELSE {})
+                 \cup (IF \E c \in 1..Len(cs) : cs[c].sent /\ ~cs[c].resp THEN {"no-response"} ELSE {})
+                 \cup (IF \E c \in 1..Len(cs) : ~cs[c].sent THEN {"case-without-interaction"} ELSE {})
                  \cup (IF \E i \in 1..Len(hist) : hist[i].label = l THEN {"repeated-label"} ELSE {}) IN
        /\ hist' = Append(hist, [kind |-> "SF", label |-> l, phase |-> ph, shape |-> sh])
        /\ unique' = unique \cup {[f |-> f, ev |-> k, case |-> firstCase(f)] : f \in new}
        /\ grouped' = grouped2
        /\ junit' = IF sh = "skip" THEN Bump(Touch(junit, l), l, "skipped") ELSE Touch(junit, l)
-       /\ cassette' = cassette \o [c \in 1..Len(cs) |-> [ev |-> k, case |-> c, resp |-> cs[c].resp,
-                                                         checks |-> cs[c].checks, meta |-> MetaOf(ph)]]
+       /\ cassette' = cassette \o SelectSeq([c \in 1..Len(cs) |-> [ev |-> k, case |-> c, sent |-> cs[c].sent, resp |-> cs[c].resp,
+                                                                   checks |-> cs[c].checks, meta |-> MetaOf(ph)]],
+                                               LAMBDA e : e.sent)
        /\ hazards' = Append(hazards, hz)
        /\ snaps' = Append(snaps, [grouped |-> grouped2, unique |-> unique'])
        /\ UNCHANGED done
@@ -126,7 +133,9 @@ GroupedIsUnique == {[f |-> g.f, ev |-> g.ev, case |-> g.case] : g \in grouped} =
 NoFailureLost == \A i \in 1..Len(cassette) : FailuresIn(cassette[i]) \subseteq Seen
 (* every delivered exchange appears exactly once, in delivery order *)
 ExactlyOnce == /\ \A i, j \in 1..Len(cassette) : (cassette[i].ev = cassette[j].ev /\ cassette[i].case = cassette[j].case) => i = j
-               /\ Len(cassette) = LET n[i \in 0..Len(hist)] == IF i = 0 THEN 0 ELSE n[i - 1] + Len(CasesOf(hist[i].shape)) IN n[Len(hist)]
+               /\ Len(cassette) = LET n[i \in 0..Len(hist)] == IF i = 0 THEN 0
+                                                                  ELSE n[i - 1] + Len(SelectSeq(CasesOf(hist[i].shape), LAMBDA c : c.sent))
+                                  IN n[Len(hist)]
 (* test cases: one per label that occurred, and a reported failure belongs to a label that had a failing scenario *)
 JunitByLabel == /\ {junit[i].label : i \in 1..Len(junit)} = {hist[i].label : i \in 1..Len(hist)}
                 /\ \A i, j \in 1..Len(junit) : junit[i].label = junit[j].label => i = j
